@@ -43,6 +43,12 @@ def scenarios(family: str) -> list[cw.Scenario]:
         # two pollers + their workers (body entry / exit observed); backend-call granularity + fine claims
         base(family, "claims-run", prequeue=["i1"],
              actors=[("poller", "r1", 1), ("poller", "r2", 1)]),
+        # the holder starts its invocation late (claim older than the pending limit) while the recovery service
+        # takes it back and another runner claims it again: the holder's request must lose, whatever point of its
+        # read-validate-write it had reached (a status that comes back under another owner)
+        base(family, "holder-vs-recovery-and-reclaim", settle=False,
+             setup=[("client", "c1", [("single", "i1")]), ("poll", "r1", 1), ("advance", 6.0)],
+             actors=[("worker", "r1", "i1"), ("recovery", "r3", "pending"), ("poller", "r2", 1, {"rounds": 2})]),
     ]
 
 
@@ -75,7 +81,7 @@ def run(ctx: Ctx) -> None:
     jobs = []
     for fam in ("mem", "sql"):
         for scn in scenarios(fam):
-            p = pre if scn.name == "claims-dup" else max(1, pre - 1)
+            p = pre if scn.name in ("claims-dup", "holder-vs-recovery-and-reclaim") else max(1, pre - 1)
             jobs.append({"scn": cc.scn_dict(scn), "mode": "dfs", "preemptions": p, "max_exec": max_exec})
     # PCT for N = 3, 4 pollers
     nseeds = 40 if ctx.quick else 600
